@@ -79,7 +79,7 @@ def auto_harness(L, funs, proof):
     return 'void h_%s(void) { %s %s(%s); }\n' % (proof['name'], ' '.join(decls), f['cname'], ', '.join(names))
 
 
-def build_unit(name, workdir):
+def build_unit(name, workdir, strip_loops=None):
     """dump + lower; returns dict with the generated C path and bookkeeping"""
     t0 = time.time()
     u = load_unit(name)
@@ -96,7 +96,7 @@ def build_unit(name, workdir):
         objs.extend(os_)
         os.remove(path)
     ast = cast.Ast(objs)
-    L, funs = lower.lower_unit(ast, u)
+    L, funs = lower.lower_unit(ast, u, strip_loops)
     harn = ''
     for p in u.PROOFS:
         harn += auto_harness(L, funs, p)
@@ -147,7 +147,30 @@ def _run(cmd, timeout, log, mem=None):
         return -9, (e.stdout or b'').decode() if isinstance(e.stdout, bytes) else (e.stdout or ''), 'TIMEOUT after %ds' % timeout, time.time() - t0
 
 
+SEARCH_UNWIND = int(os.environ.get('VS_SEARCH_UNWIND', '4'))
+
+
 def run_proof(built, proof, workdir, extra_defs=(), trace=False):
+    """the proof; when its loop contracts no longer FIT the code (the generated C does not compile: a rewritten loop lost the variables the
+    invariant names), a bounded search of the same function -- loop contracts left out, loops unwound SEARCH_UNWIND times, no unwinding
+    assertions -- looks for a failing obligation on a real path.  Found: reported (mode 'bounded', never counted as proved).  Not found:
+    the tool error stands."""
+    r = _run_proof(built, proof, workdir, extra_defs, trace)
+    if r['status'] == 'error' and proof.get('loops') == 'contracts' and proof.get('enforce') and not trace and 'goto-cc failed' in (r.get('error') or ''):
+        try:
+            b2 = build_unit(built['unit'].NAME, os.path.join(workdir, 'fb_' + proof['name']), strip_loops={proof['enforce']})
+            p2 = dict(proof, loops=('search', SEARCH_UNWIND))
+            r2 = _run_proof(b2, p2, os.path.join(workdir, 'fb_' + proof['name']), extra_defs, False)
+        except (lower.Abort, cast.AstError, PipelineError) as e:
+            return r
+        if r2['status'] == 'ok' and any(o['status'] == 'FAILURE' and classify(o) == 'P' for o in r2['obligations']):
+            r2['mode'] = 'bounded'
+            r2['fallback'] = 'loop contracts do not fit the code (%s); bounded search, loops unwound %d times' % ((r.get('error') or '').strip().split('\n')[-2:][0][:200], SEARCH_UNWIND)
+            return r2
+    return r
+
+
+def _run_proof(built, proof, workdir, extra_defs=(), trace=False):
     """returns dict: status ok|error, obligations [...], seconds, cmds"""
     u = built['unit']
     name = proof['name']
@@ -238,6 +261,8 @@ def run_proof(built, proof, workdir, extra_defs=(), trace=False):
         cb = ['cbmc', gb] + list(checks) + SOLVER + ['--object-bits', str(proof.get('object_bits', 10)), '--json-ui', '--verbosity', '6']
         if isinstance(mode, tuple) and mode[0] == 'unwind':
             cb += ['--unwind', str(mode[1]), '--unwinding-assertions']
+        if isinstance(mode, tuple) and mode[0] == 'search':
+            cb += ['--unwind', str(mode[1]), '--no-unwinding-assertions']
         cb += list(proof.get('flags', [])) if checks else [f for f in proof.get('flags', []) if not f.endswith('-check')]
         for pid in props:
             cb += ['--property', pid]
